@@ -198,6 +198,97 @@ Proof.
   split; now apply Qeq_bool_iff.
 Qed.
 
+(* ---- which Rationals convert exactly?  every n / 2^k (the conversion is one correctly
+   rounded division of two exactly converted i32) *)
+Lemma f64_of_Z_B2R z m e : z = m * 2 ^ e -> Z.abs m < 2 ^ 53 -> 0 <= e -> Z.abs z < 2 ^ 1024 ->
+  B2R (f64_of_Z z) = IZR z /\ is_finite (f64_of_Z z) = true.
+Proof.
+  intros Ez Bm He Bz.
+  pose proof (binary_normalize_correct 53 1024 prec_gt_0_53 prec_lt_emax_64 mode_NE z 0 false) as H.
+  cbn zeta in H. fold (f64_of_Z z) in H.
+  assert (Ex : @F2R radix2 {| Fnum := z; Fexp := 0 |} = IZR z).
+  { unfold F2R. cbn [Fnum Fexp bpow]. now rewrite Rmult_1_r. }
+  rewrite Ex in H.
+  assert (G : generic_format radix2 (SpecFloat.fexp 53 1024) (IZR z)).
+  { apply (generic_format_FLT radix2 (3 - 1024 - 53) 53).
+    apply (FLT_spec radix2 (3 - 1024 - 53) 53 (IZR z) {| Fnum := m; Fexp := e |}).
+    - unfold F2R. cbn [Fnum Fexp]. rewrite Ez, mult_IZR. f_equal. exact (IZR_Zpower radix2 e He).
+    - exact Bm.
+    - cbn [Fexp]. lia. }
+  rewrite round_generic in H by (try exact G; apply valid_rnd_N).
+  rewrite Rlt_bool_true in H.
+  2:{ rewrite <- abs_IZR. replace (bpow radix2 1024) with (IZR (2 ^ 1024)) by (exact (IZR_Zpower radix2 1024 ltac:(lia))).
+      now apply IZR_lt. }
+  destruct H as [HR [HF _]]. split; assumption.
+Qed.
+
+Lemma i32_B2R z : in_i32 z = true -> B2R (f64_of_Z z) = IZR z /\ is_finite (f64_of_Z z) = true.
+Proof.
+  intros H. unfold in_i32, I32_MIN, I32_MAX in H. apply andb_true_iff in H. rewrite !Z.leb_le in H.
+  assert (2 ^ 31 < 2 ^ 53) by (apply Z.pow_lt_mono_r; lia).
+  assert (2 ^ 53 < 2 ^ 1024) by (apply Z.pow_lt_mono_r; lia).
+  apply (f64_of_Z_B2R z z 0); lia.
+Qed.
+
+Theorem dyadic_exact_in_f64 n k : in_i32 n = true -> 0 <= k <= 30 ->
+  exact_in_f64 (Rational n (2 ^ k)) = true.
+Proof.
+  intros Hn Hk.
+  assert (Hd : in_i32 (2 ^ k) = true).
+  { unfold in_i32, I32_MIN, I32_MAX. apply andb_true_iff. rewrite !Z.leb_le.
+    assert (0 < 2 ^ k) by (apply Z.pow_pos_nonneg; lia).
+    assert (2 ^ k <= 2 ^ 30) by (apply Z.pow_le_mono_r; lia).
+    change (2 ^ 31) with (2 * 2 ^ 30). lia. }
+  destruct (i32_B2R n Hn) as [Rx Fx]. destruct (i32_B2R (2 ^ k) Hd) as [Ry Fy].
+  assert (Pk : (0 < IZR (2 ^ k))%R) by (apply IZR_lt; apply Z.pow_pos_nonneg; lia).
+  pose proof (Bdiv_correct 53 1024 prec_gt_0_53 prec_lt_emax_64 mode_NE (f64_of_Z n) (f64_of_Z (2 ^ k))) as H.
+  rewrite Rx, Ry in H. specialize (H ltac:(lra)).
+  assert (Ev : (IZR n / IZR (2 ^ k))%R = @F2R radix2 {| Fnum := n; Fexp := - k |}).
+  { unfold F2R, Rdiv. cbn [Fnum Fexp]. rewrite bpow_opp. f_equal. f_equal.
+    exact (IZR_Zpower radix2 k ltac:(lia)). }
+  assert (G : generic_format radix2 (SpecFloat.fexp 53 1024) (IZR n / IZR (2 ^ k))).
+  { apply (generic_format_FLT radix2 (3 - 1024 - 53) 53).
+    apply (FLT_spec radix2 (3 - 1024 - 53) 53 _ {| Fnum := n; Fexp := - k |}).
+    - exact Ev.
+    - cbn [Fnum]. unfold in_i32, I32_MIN, I32_MAX in Hn. apply andb_true_iff in Hn. rewrite !Z.leb_le in Hn.
+      assert (2 ^ 31 < 2 ^ 53) by (apply Z.pow_lt_mono_r; lia). change (Z.pow radix2 53) with (2 ^ 53). lia.
+    - cbn [Fexp]. lia. }
+  rewrite round_generic in H by (try exact G; apply valid_rnd_N).
+  rewrite Rlt_bool_true in H.
+  2:{ rewrite Ev. unfold F2R. cbn [Fnum Fexp]. rewrite Rabs_mult, <- abs_IZR.
+      rewrite (Rabs_pos_eq (bpow radix2 (- k))) by apply bpow_ge_0.
+      apply Rle_lt_trans with (IZR (Z.abs n) * 1)%R.
+      - apply Rmult_le_compat_l; [apply IZR_le; lia|].
+        change 1%R with (bpow radix2 0). apply bpow_le. lia.
+      - rewrite Rmult_1_r.
+        replace (bpow radix2 1024) with (IZR (2 ^ 1024)) by (exact (IZR_Zpower radix2 1024 ltac:(lia))).
+        apply IZR_lt. unfold in_i32, I32_MIN, I32_MAX in Hn. apply andb_true_iff in Hn. rewrite !Z.leb_le in Hn.
+        assert (2 ^ 31 < 2 ^ 1024) by (apply Z.pow_lt_mono_r; lia). lia. }
+  destruct H as [HR [HF _]]. rewrite Fx in HF.
+  unfold exact_in_f64. cbn [num_to_f64]. unfold rto_f64. cbn [fst snd]. fold (f64_div (f64_of_Z n) (f64_of_Z (2 ^ k))) in *.
+  set (f := f64_div (f64_of_Z n) (f64_of_Z (2 ^ k))) in *.
+  assert (NN : f64_is_nan f = false) by (destruct f; try discriminate; reflexivity).
+  rewrite NN.
+  destruct (finite_f64_to_Q f HF) as [q Hq]. rewrite Hq. apply Qeq_bool_iff.
+  apply eqR_Qeq. rewrite (f64_to_Q_B2R f q Hq).
+  rewrite HR. cbn [qv]. unfold Q2R. cbn [Qnum Qden].
+  rewrite Z2Pos.id by (apply Z.pow_pos_nonneg; lia). reflexivity.
+Qed.
+
+(* Rational n/2^k against a finite double: the mathematical order, unconditionally *)
+Theorem cmp_dyadic_float p n k r vr : rwfb n (2 ^ k) = true -> 0 <= k -> f64_to_Q r = Some vr ->
+  num_partial_cmp p (Rational n (2 ^ k)) (Float r) = Ok (Some ((n # Z.to_pos (2 ^ k)) ?= vr)%Q) /\
+  num_partial_cmp p (Float r) (Rational n (2 ^ k)) = Ok (Some (vr ?= (n # Z.to_pos (2 ^ k)))%Q).
+Proof.
+  intros W Hk Hr. unfold rwfb in W. rewrite !andb_true_iff in W. destruct W as [[[Rn Rd] _] _].
+  assert (K : k <= 30).
+  { destruct (Z_le_gt_dec k 30) as [L|L]; [exact L|exfalso].
+    unfold in_i32, I32_MIN, I32_MAX in Rd. apply andb_true_iff in Rd. rewrite !Z.leb_le in Rd.
+    assert (2 ^ 31 <= 2 ^ k) by (apply Z.pow_le_mono_r; lia). lia. }
+  pose proof (dyadic_exact_in_f64 n k Rn (conj Hk K)) as E.
+  split; apply cmp_with_float; try assumption; try reflexivity.
+Qed.
+
 (* Fixnum / BigInt against a finite double, every |z| <= 2^53: the mathematical order *)
 Theorem cmp_small_int_float p (big : bool) z r vr : Z.abs z <= 2 ^ 53 -> f64_to_Q r = Some vr ->
   let x := if big then BigInt z else Fixnum z in
